@@ -650,9 +650,16 @@ func (st *rawState) oracle(v *vio) {
 			st.s.Probe("frame-not-sent-to-the-broadcast-MAC (not judged)")
 		}
 		want := 28 + len(w.payload)
-		if len(b) != want {
-			v.add("W-size", "write %d: frame is %d bytes, want %d (20 + 8 + %d)", i, len(b), want, len(w.payload))
+		if len(b) < want {
+			v.add("W-size", "write %d: frame is %d bytes, too short for 20 + 8 + %d", i, len(b), len(w.payload))
 			continue
+		}
+		if len(b) > want {
+			// Bytes after the IP datagram are link-layer padding (a sender may pad runt frames to
+			// the Ethernet minimum): the statement fixes the IP total length, which bounds the
+			// datagram, not the length of what is handed to the link. The datagram is judged.
+			st.s.Probe("written-frame-carries-link-padding")
+			b = b[:want]
 		}
 		if b[0] != 0x45 {
 			v.add("W-verihl", "write %d: version/IHL byte %#02x, want 0x45", i, b[0])
